@@ -21,7 +21,7 @@ func C02(r *core.Report) {
 		"R3 the transactions of the answer are sorted by recorded position with a strict ascending comparator after the last append and before they are put in the response, and the position comes from the transaction node's GetPositionIndex; " +
 		"R4 blockhash is the hash of the last entry (written under index == len(entries)-1) and previousBlockhash is taken from the last entry of the parent block fetched from the same epoch under the same-epoch test; " +
 		"R5 payload bytes handed out do not alias pooled buffers (the C14.R5 rule, repo-wide); R6 in both getTransaction handlers the epoch handler is the one the signature search returned for the signature that is then fetched, and the answer's slot, block time (same handler's index, keyed by the node's slot), position and payload (same handler's frame getter) all come from that one node. " +
-		"R10 wherever a block time is read from the slot-to-blocktime index (directly or through a forwarding wrapper) no test of the time's value ends in an error-only branch: presence is decided by the look-up's error, a recorded time of 0 is a valid answer. Not decided: the index lookups themselves (C03, C10), payload reassembly (C14), encodings, which epochs are loaded."
+		"R10 wherever a block time is read from the slot-to-blocktime index (directly or through a forwarding wrapper) no test of the time's value ends in an error-only branch: presence is decided by the look-up's error, a recorded time of 0 is a valid answer. R11 the frame collector follows every fetched frame's own links and adds each frame once (same rule as C14.R10). Not decided: the index lookups themselves (C03, C10), payload reassembly (C14), encodings, which epochs are loaded."
 	c02Routing(r)
 	c02EpochConstants(r)
 	c02CompletionOrder(r)
@@ -32,6 +32,7 @@ func C02(r *core.Report) {
 	c02PrefetchIsBestEffort(r)
 	hitConfirmedByIndex(r, "C02.R9")
 	c02BlocktimeValueBlind(r)
+	everyFrameFollowedOnce(r, "C02.R11")
 	r.Floor("C02.R10", 2)
 	r.Floor("C02.R8", 2)
 	for _, k := range []string{"main.(*Epoch).GetBlock", "main.(*Epoch).GetTransaction", "main.(*Epoch).GetNodeByCid", "main.(*Epoch).ReadAtFromCar"} {
